@@ -17,7 +17,7 @@ import (
 func GenC12(verifSeed uint64, run int) *Scenario {
 	seed := Mix(verifSeed, 12, uint64(run))
 	g := NewRng(seed)
-	w := GenWorld(g, GenOpts{FixMTime: true, Small: true, SharedBias: true})
+	w := GenWorld(g, GenOpts{FixMTime: true, Small: true, SharedBias: true, PartialInvalidP: 0.2})
 	plan := &C12Plan{NConfigs: 1, GoMaxProcs: Pick(g, []int{1, 2, 4, 16})}
 	// clients of the shared Config: different formats, each at most once
 	fs := append([]string{}, Formats...)
@@ -60,6 +60,7 @@ func GenC12(verifSeed uint64, run int) *Scenario {
 	plan.SwitchP = Pick(g, []float64{0, 0.05, 0.2, 0.5, 1})
 	plan.Guided = g.Bool(0.6)
 	plan.SchedSeed = g.Uint64()
+	plan.InstrSwitchP = Pick(g, []float64{0.002, 0.01, 0.05, 0.2})
 	return &Scenario{Property: "C12", VerifSeed: verifSeed, Run: run, RunSeed: seed, World: w, C12: plan}
 }
 
@@ -153,6 +154,11 @@ func RunC12(rt *Runtime, sc *Scenario) RunResult {
 		res.Trouble = "chdir: " + err.Error()
 		return res
 	}
+	if !plan.Replay && plan.Mode != "free" {
+		// the thorough tier builds against the ast-instrumented copy: then
+		// every function entry and loop body of nfpm is a yield point
+		plan.Instr = instrAvailable
+	}
 	gmp := plan.GoMaxProcs
 	if gmp <= 0 {
 		gmp = 4
@@ -179,6 +185,16 @@ func RunC12(rt *Runtime, sc *Scenario) RunResult {
 		if err != nil {
 			res.Trouble = "reference setup: " + err.Error()
 			return res
+		}
+		if contains(w.ExpectFail, c.Format) {
+			if ok {
+				res.Trouble = fmt.Sprintf("generator: %s was expected to be invalid for this configuration but builds", c.Format)
+				return res
+			}
+			res.Counters["probe.format_fails_by_construction"]++
+			res.Notes = res.Notes[:len(res.Notes)-len(ref.Notes)]
+			refs[k] = nil
+			continue
 		}
 		if !ok {
 			res.Counters["reference_failed"]++
@@ -339,11 +355,19 @@ func runBaton(clients []*c12client, plan *C12Plan) (schedule []Switch, trace []s
 		return nil, nil, "pipes: " + err.Error()
 	}
 	defer b.Close()
+	if plan.Instr {
+		if !instrAvailable {
+			return nil, nil, "scenario needs the ast-instrumented build (plan.instr) but the harness was built without it"
+		}
+		instrStart(b, n)
+		defer instrStop()
+	}
 	var wg sync.WaitGroup
 	for i, c := range clients {
 		wg.Add(1)
 		go func(id int, c *c12client) {
 			defer wg.Done()
+			instrRegister(id)
 			b.WaitStart(id)
 			c.body(func(code int) { b.YieldCode(id, code) })
 			if c.plan.Kind == "prepare" && c.getErr == nil {
@@ -419,6 +443,9 @@ func runBaton(clients []*c12client, plan *C12Plan) (schedule []Switch, trace []s
 			}
 		} else if curRunnable {
 			p := plan.SwitchP
+			if code == siteInstr {
+				p = plan.InstrSwitchP
+			}
 			if plan.Guided && (code == siteAfterGet || code == siteAfterDefaults || code == siteAfterPrepare || code == siteAfterName) && p < 0.7 {
 				p = 0.7
 			}
